@@ -20,6 +20,7 @@
 //     NOT covered by the translation; that it has no other effect is checked here;
 //   - "slicetypes" / "stypes": a method with a receiver of a named slice type ([]*T for a struct T of the config) takes
 //     the slice as a list of T's records; named SIGNED integer types (DetectOrder int8);
+//   - "addrs": `&x` of a listed package-level variable is the reference given by the parameter addr_x;
 //   - a statement f(args) calling another world function of the config threads the world and passes its extra
 //     parameters (oracles, seam results) on.
 package main
@@ -46,6 +47,7 @@ type halCfg struct {
 	LookupFns  []string             `json:"lookupfns"` // functions a summarised loop may call
 	SliceTypes map[string]string    `json:"slicetypes"`
 	STypes     map[string]int       `json:"stypes"`
+	Addrs      []string             `json:"addrs"` // package-level variables whose ADDRESS is taken (&x): a reference given by the parameter addr_x
 }
 
 const halRef = "#ref"
@@ -98,7 +100,9 @@ func (tr *translator) halField(e ast.Expr) (sfield, bool) {
 	if tr.mon != "world" {
 		return sfield{}, false
 	}
-	if _, isSel := e.(*ast.SelectorExpr); !isSel {
+	switch e.(type) {
+	case *ast.SelectorExpr, *ast.Ident:
+	default:
 		return sfield{}, false
 	}
 	n, ok := cfg.Hal.WorldVars[exprText(e)]
@@ -156,6 +160,17 @@ func (tr *translator) halExpr(e ast.Expr, en *env) (string, tinfo, bool) {
 		return "", tinfo{}, false
 	}
 	switch t := e.(type) {
+	case *ast.Ident:
+		if _, local := en.vars[t.Name]; !local {
+			if f, ok := tr.halField(t); ok {
+				return "(" + fieldName(tr.mon, f.name) + " " + v(tr.ptrRecv) + ")", tinfo{width: f.width, named: f.named}, true
+			}
+		}
+	case *ast.UnaryExpr:
+		if id, ok := t.X.(*ast.Ident); ok && t.Op == token.AND && halIn(cfg.Hal.Addrs, id.Name) {
+			tr.extUsed["addr_"+id.Name] = 64
+			return "addr_" + id.Name, tinfo{width: 64, named: halRef}, true
+		}
 	case *ast.BinaryExpr:
 		if t.Op != token.EQL && t.Op != token.NEQ {
 			return "", tinfo{}, false
